@@ -346,7 +346,8 @@ def genops_obs(data):
             if arg is None:
                 ops.append([opc.name])
             elif isinstance(arg, bool):
-                ops.append([opc.name, arg])
+                # decimalnl_short reads "00" / "01" as False / True for GET and PUT as well: there it is the index 0 / 1
+                ops.append([opc.name, arg if opc.name == "INT" else int(arg)])
             elif isinstance(arg, int):
                 ops.append([opc.name, arg])
             elif isinstance(arg, float):
@@ -490,8 +491,9 @@ def effective_allow_py(arg):
 # running the implementation with a spy on find_class
 # ---------------------------------------------------------------------------
 
-def real_load(data, safe=None):
-    """-> dict(cls, exc, calls=[(m, n, returned?)], result, objs={id: (m, n)})"""
+def real_load(data, safe=None, file_obj=None):
+    """-> dict(cls, exc, calls=[(m, n, returned?)], result, objs={id: (m, n)});
+    file_obj: load through pickle_load(file_obj=...) instead of pickle_load(content)"""
     from deepdiff.serialization import _RestrictedUnpickler, pickle_load
     calls = []
     objs = {}
@@ -513,7 +515,10 @@ def real_load(data, safe=None):
     with mock.patch.object(_RestrictedUnpickler, "find_class", spy), \
             mock.patch.object(_RestrictedUnpickler, "persistent_load", spy_pl):
         try:
-            out["result"] = pickle_load(data, safe_to_import=safe)
+            if file_obj is not None:
+                out["result"] = pickle_load(file_obj=file_obj, safe_to_import=safe)
+            else:
+                out["result"] = pickle_load(data, safe_to_import=safe)
             out["cls"] = "ok"
             out["exc"] = None
         except BaseException as e:  # noqa
@@ -1634,6 +1639,17 @@ def real_dump_sources():
             collections.OrderedDict([("a", 1)]), [Opcode("insert", 0, 0, 0, 1, None, [1]), SetOrdered([1, 2])], "plain", 10 ** 30,
             {"values_changed": {"root['a']": {"new_value": 2, "old_value": 1}}, "type_changes": {"root[1]": {"old_type": int, "new_type": str}}},
             [bytearray(b"ab"), 1.5, float("inf")], type(None), [list, dict, set, (str, bytes)]]
+    # cyclic object graphs through the memo (the model unfolds them finitely: its VALUES differ, the observables of
+    # this property - outcome, names resolved, in which order - must not)
+    cyc1 = [1]
+    cyc1.append(cyc1)
+    cyc2 = {"k": int}
+    cyc2["self"] = cyc2
+    cyc3 = [str]
+    cyc3.append((cyc3, {"back": cyc3}, float))
+    cyc4 = collections.OrderedDict()
+    cyc4["me"] = [cyc4, dict]
+    objs += [cyc1, cyc2, cyc3, cyc4]
     out = []
     for o in objs:
         for p in range(6):
@@ -1694,6 +1710,21 @@ def bytes_part(ctx, cfgs, n_streams, program_bytes):
         ctx.count("bytes:mutated:genops:" + expected[0][0])
         if res["calls"]:
             ctx.count("bytes:mutated:with-lookups")
+        if i % 4 == 0 and data:
+            # the same bytes through pickle_load(file_obj=<buffered on-disk file>): that reader has peek() and prefetches,
+            # which the byte model does not follow (every Delta entry point reads the whole content first and goes through
+            # BytesIO); the property itself is checked directly
+            fn = os.path.join(ctx.scratch, "c15_stream.bin")
+            with open(fn, "wb") as f:
+                f.write(data)
+            FLAGS["touched"].clear()
+            FLAGS["called"].clear()
+            with open(fn, "rb") as f, _MemLimit():
+                res_f = real_load(None, cfg[1], file_obj=f)
+            direct_oracle(ctx, dict(case, entry="pickle_load(file_obj=buffered file)"), res_f, effective_allow_py(cfg[1]))
+            ctx.count("bytes:mutated:also-through-a-buffered-file")
+            if [c[:2] for c in res_f["calls"]] != [c[:2] for c in res["calls"]]:
+                ctx.count("bytes:mutated:buffered-file-reader-took-another-path(frame remainders are not dropped there)")
         if any(o[0] in ("REDUCE", "NEWOBJ", "NEWOBJ_EX", "OBJ", "INST", "BUILD") for o in expected[0][1]):
             ctx.count("bytes:mutated:with-call-opcodes(at most these are compared up to the first call only)")
         cases.append((expr, expected, case))
@@ -1989,7 +2020,16 @@ def replay(ctx, data):
             cfg = [c for c in cfgs if c[0] == case["config"]][0]
             FLAGS["touched"].clear()
             FLAGS["called"].clear()
-            res = real_load(bytes.fromhex(case["bytes_hex"]), cfg[1])
+            if str(case.get("entry", "")).startswith("pickle_load(file_obj"):
+                fn = os.path.join(ctx.scratch, "c15_stream.bin")
+                with open(fn, "wb") as f:
+                    f.write(bytes.fromhex(case["bytes_hex"]))
+                with open(fn, "rb") as f:
+                    res = real_load(None, cfg[1], file_obj=f)
+                case = dict(case)
+                case.pop("entry")
+            else:
+                res = real_load(bytes.fromhex(case["bytes_hex"]), cfg[1])
             print("replay: outcome=%s find_class calls=%r persistent ids=%r sentinel touched=%r called=%r" % (
                 res["exc"] or "ok", res["calls"], res["pids"], FLAGS["touched"], FLAGS["called"]))
             ctx.evaluations += 1
